@@ -454,6 +454,145 @@ def check_product_accounting(r, repo, rule="R12.3", sizes=(1, 2, 3)):
     return n_ob
 
 
+def check_eager_renormalize(r, repo, rule="R12.4", sizes=(2, 3, 4, 5)):
+    """The eager (functional=False) renormalize, interpreted by sa/absint.py on symbolic items for every sequence of
+    `_is_nonzero` decisions: vecsum(l) -> fresh atoms e_i with sum(e) == sum(l), two_sum(a, b) -> (s, a + b - s) with s fresh; a
+    decision `not _is_nonzero(v)` adds the fact v == 0.
+      (a) size=None: on every decision path the returned items sum to the input sum (modulo the facts of the path);
+      (b) size=k: the result is the first k items of the unlimited result on the same decisions - a size limit may truncate
+          the output, it must not change which items are produced (seed C12d capped the loop by steps, not by emitted items)."""
+    from fractions import Fraction
+    from sa.absint import Interp, Closure, Unsupported as IUnsupported, PyRaise
+
+    g = repo.func(AP, "renormalize")
+
+    class V(Poly):
+        __absint_host__ = True
+
+        def __hash__(self):
+            return id(self)
+
+    def lift(p_):
+        return p_ if isinstance(p_, V) else V(p_.t)
+
+    def _wrap(name):
+        base = getattr(Poly, name)
+
+        def f(self, *a):
+            out = base(self, *a)
+            return V(out.t) if isinstance(out, Poly) and not isinstance(out, V) else out
+        return f
+
+    for _n in ("__add__", "__radd__", "__sub__", "__rsub__", "__mul__", "__rmul__", "__neg__"):
+        setattr(V, _n, _wrap(_n))
+
+    def subst(p_, sub):
+        out = Poly.const(0)
+        for mon, cf in p_.t.items():
+            term = Poly.const(cf)
+            for a_ in mon:
+                term = term * (sub[a_] if a_ in sub else Poly.atom(a_))
+            out = out + term
+        return out
+
+    def run(n, size, prefix):
+        """-> (result list, decisions consumed [(value, polarity)], sum of inputs)"""
+        dec = []
+        cnt = [0]
+
+        class Ctx:
+            __absint_host__ = True
+
+            def _is_nonzero(self, v):
+                i = len(dec)
+                val = prefix[i] if i < len(prefix) else True
+                dec.append((v, val))
+                return val
+
+        xs = [V({(f"x{i}",): Fraction(1)}) for i in range(n)]
+        total = Poly.const(0)
+        for x_ in xs:
+            total = total + x_
+
+        def vecsum(ctx, seq, *a, **k):
+            es = [V({(f"e{i}",): Fraction(1)}) for i in range(len(seq) - 1)]
+            rest = Poly.const(0)
+            for q in seq:
+                rest = rest + q
+            for e_ in es:
+                rest = rest - e_
+            return es + [lift(rest)]
+
+        def two_sum(ctx, a, b, *rest, **kw):
+            cnt[0] += 1
+            s_ = V({(f"s{cnt[0]}",): Fraction(1)})
+            return (s_, lift(a + b - s_))
+
+        I = Interp(repo)
+        I.globals_cache[(AP, "vecsum")] = vecsum
+        I.globals_cache[(AP, "two_sum")] = two_sum
+        try:
+            out = I.call(Closure(g, {}, I, AP, bound_self=None), [Ctx(), list(xs)], dict(functional=False, size=size))
+        except (IUnsupported, PyRaise, TypeError) as e:
+            raise AnalysisError(f"{AP}::renormalize (eager) is not interpretable on symbolic items: {getattr(e, 'what', e)}")
+        if not isinstance(out, list):
+            raise AnalysisError("eager renormalize did not return a list")
+        return out, dec, total
+
+    def facts(dec):
+        sub = {}
+        for v, pol in dec:
+            if pol or not isinstance(v, Poly):
+                continue
+            p_ = subst(Poly(dict(v.t)), sub)
+            if not p_.t:
+                continue
+            # v == 0: solve for the newest atom that occurs linearly with coefficient +-1
+            cands = [(mon[0], cf) for mon, cf in p_.t.items() if len(mon) == 1 and cf != 0 and not any(mon[0] in m and m != mon for m in p_.t)]
+            if not cands:
+                raise AnalysisError(f"eager renormalize: the fact `{p_!r} == 0` is not solvable for an atom")
+            pick = sorted(cands, key=lambda c_: (c_[0][0] == "s", c_[0]))[-1]
+            a_, cf = pick
+            rest = p_ - Poly({(a_,): cf})
+            sub = {k: subst(v2, {a_: rest * (-1 / cf)}) for k, v2 in sub.items()}
+            sub[a_] = rest * (-1 / cf)
+        return sub
+
+    n_paths = 0
+    for n in sizes:
+        # enumerate decision paths of the unlimited run
+        stack = [[]]
+        full = {}
+        while stack:
+            prefix = stack.pop()
+            out, dec, total = run(n, None, prefix)
+            pols = tuple(p for _, p in dec)
+            full[pols] = out
+            n_paths += 1
+            sub = facts(dec)
+            ssum = Poly.const(0)
+            for o in out:
+                ssum = ssum + o
+            d = subst(ssum - total, sub)
+            r.ob(rule, f"{AP}::renormalize eager n={n} size=None decisions {''.join('N' if p else 'Z' for p in pols)}", not d.t,
+                 f"sum(result) - sum(items) = `{d!r}` on this path: an item or an error term is lost", loc(AP, g))
+            for i in range(len(prefix), len(dec)):
+                stack.append([p for p in pols[:i]] + [not pols[i]])
+        for k in range(1, n + 1):
+            for pols, ref in full.items():
+                out, dec, _ = run(n, k, list(pols))
+                got = [Poly(dict(o.t)) for o in out]
+                want = [Poly(dict(o.t)) for o in ref[:k]]
+                ok = len(got) == len(want) and all(Poly.__eq__(a_, b_) for a_, b_ in zip(got, want))
+                n_paths += 1
+                r.ob(rule, f"{AP}::renormalize eager n={n} size={k} decisions {''.join('N' if p else 'Z' for p in pols)}", ok,
+                     f"with size={k} the result is {[repr(o) for o in got]}, the first {k} item(s) of the unlimited result are {[repr(o) for o in want]}: "
+                     "the size limit changes which items are produced, so terms that would have fitted are dropped", loc(AP, g))
+    if n_paths < 20:
+        raise AnalysisError(f"eager renormalize: only {n_paths} paths explored")
+
+
+
 def run(repo, tier):
     r = Report("C12", tier, repo, level="other", design_ref="§3/C12")
     r.explanation = (
@@ -471,11 +610,13 @@ def run(repo, tier):
                      "infeasible case splits are checked too (sound for a universal claim)"]
     r.rule("R12.1", "functional renormalize: in every case split, sum(outputs) == sum(inputs) exactly (affine-equality domain)", floor=8)
     r.rule("R12.3", "add/subtract/multiply/square hand renormalize a list whose exact sum is the exact sum/difference/product/square (two_prod and vecsum summarised by their error-free contracts)", floor=40)
+    r.rule("R12.4", "eager renormalize on every sequence of is-nonzero decisions: the unlimited result sums to the input sum, and a size limit returns a prefix of the unlimited result", floor=20)
     r.rule("R12.2", "maximal expansion size tables equal (maxexp - minexp - machep) // (-negep - 1) for float16/32/64", floor=3)
 
     for rel in (AP, "floating_point_algorithms.py", "context.py", "expr.py"):
         repo.source(rel)
     check_product_accounting(r, repo, sizes=(1, 2, 3) if tier == "quick" else (1, 2, 3, 4, 5))
+    check_eager_renormalize(r, repo, sizes=(2, 3, 4, 5) if tier == "quick" else (2, 3, 4, 5, 6, 7))
     fa = load_package(repo.root)
     from ir import normal
     apmath = fa.apmath
